@@ -387,7 +387,11 @@ def e_notify_unwrap(ctx, s):
     for bb, t in ent:
         cut |= {eid for eid, s_, lab in ad.edges(bb)}
     for bb, t in ins:
-        if not C.guarded(ad, bb, cut):
+        if C.guarded(ad, bb, cut):
+            continue
+        # or the entry is created afterwards, on every way out of add_dependency (the coordinator is single-threaded)
+        after = C.after_edges(ad, out_edges(ad, [bb]), cut=cut)
+        if any(ad.term(x)["k"] == "return" for x in after):
             return None
     # out_edge_counts entries are removed only in notify_finish
     for b in lib.bodies.values():
@@ -396,7 +400,7 @@ def e_notify_unwrap(ctx, s):
                     has_field(C.trace(b, t["args"][0], through_fields=True), "out_edge_counts") and \
                     b.name != ROLE["notify_finish"] and b.root != ROLE["notify_finish"]:
                 return None
-    return "add_dependency creates the counter entry before it records any in-edge; counters are removed only by notify_finish on the last edge"
+    return "add_dependency creates the counter entry whenever it records an in-edge (before it, or on every path to its return); counters are removed only by notify_finish on the last edge"
 
 
 def e_unreachable_collect(ctx, s):
@@ -487,11 +491,32 @@ def e_line_ending_buf(ctx, s):
         if cut and C.guarded(b, s.bb, cut):
             return "buf[%d] in an arm where len >= %d; buf holds exactly the len bytes read_until appended" % (cval, need)
         return None
-    # len - k
-    for l in idx_l:
-        if l.kind == "binop" and l.data["op"].startswith("Sub"):
-            if any(x.kind == "param" and x.data == p_len for x in C.trace(b, l.data["a"])):
-                return "buf[len - k]: k <= len by the preceding overflow check; buf holds exactly len bytes"
+    # len - k (k >= 1): a chain of subtractions (`-` with its overflow check, or the Some payload of checked_sub) starting at `len`
+    CSUB = "std::num::<impl usize>::checked_sub"
+
+    def below_len(op, depth=0):
+        """does every origin of `op` subtract at least once from the len parameter?"""
+        lv = C.trace(b, op)
+        if not lv or depth > 4:
+            return False
+        for l in lv:
+            if l.kind == "binop" and l.data["op"].startswith("Sub"):
+                minuend = l.data["a"]
+            elif l.kind == "call" and C.callee_name(l.data) == CSUB:
+                minuend = l.data["args"][0]
+            else:
+                return False
+            k = C.trace(b, l.data["b"] if l.kind == "binop" else l.data["args"][1])
+            if not (k and all(x.kind == "const" and re.match(r"[1-9]\d*_usize$", C.op_const(x.data) or "") for x in k)):
+                return False
+            m = C.trace(b, minuend)
+            if m and all(x.kind == "param" and x.data == p_len for x in m):
+                continue
+            if not below_len(minuend, depth + 1):
+                return False
+        return True
+    if below_len(idx):
+        return "buf[len - k], k >= 1: the subtraction cannot wrap (overflow check / checked_sub); buf holds exactly len bytes"
     return None
 
 
